@@ -390,3 +390,16 @@ Lemma save_restore_shared_offset_wrong :
   save_restore 3 3 2 [10; 11; 12; 20; 21; 22]%Z = [10; 11; 12; 20; 21; 22]%Z /\
   save_restore 3 4 1 [10; 11; 12; 13]%Z = [10; 11; 12; 13]%Z.
 Proof. vm_compute. repeat split; try reflexivity. discriminate. Qed.
+
+(* ------------------------------------------------------------------ CopyList keeps everything that resolves *)
+Lemma copy_list_complete {A : Type} (resolves : A -> bool) (l : list A) :
+  (forall x : A, In x l -> resolves x = true) <-> copy_list resolves l = l.
+Proof.
+  unfold copy_list. induction l as [|x r IH]; simpl; [tauto|]. split.
+  - intro H. rewrite (H x (or_introl eq_refl)). f_equal. apply IH. intros y Hy. apply H. right. exact Hy.
+  - intro H. destruct (resolves x) eqn:E.
+    + inversion H as [H1]. rewrite H1. intros y [<-|Hy]; [exact E | apply IH; assumption].
+    + exfalso. assert (L : forall q : list A, (length (filter resolves q) <= length q)%nat).
+      { induction q as [|y q IHq]; simpl; [lia|]. destruct (resolves y); simpl; lia. }
+      specialize (L r). rewrite H in L. simpl in L. lia.
+Qed.
